@@ -46,8 +46,13 @@ import (
 // destination identifiers are free (no channel state is consulted by these layers).
 // Steps in which ICS-20 itself refuses (nothing moves) are counted, not judged.
 
+// Signatures. Send side: sigHopLike (recorded finding, class sendKnownClass). Receive side: the
+// receive parser disagreeing with ICS-20 for the two anticipated shapes (two-segment base with a
+// hop-like second segment arriving as a foreign token; returning packet from a source id that is
+// not channel-N / {type}-N shaped) is sigRecvParser - NOT excluded from any generator: on a tree
+// where ParseDenomFromRecvPacket mirrors ICS-20's OnRecvPacket these cases simply pass.
 const (
-	sigForeignSrc = "foreign-source-id-format"
+	sigRecvParser = "recv-parser-differs-from-ics20"
 )
 
 type c42Case struct {
@@ -65,8 +70,7 @@ type c42Case struct {
 	Amount  string `json:"amount"`
 	Part    int    `json:"part"` // quarters moved in the later steps
 	// bookkeeping of the generator
-	ExcludedHop     int `json:"excluded_hop"`
-	ExcludedForeign int `json:"excluded_foreign"`
+	ExcludedHop int `json:"excluded_hop"`
 }
 
 var (
@@ -87,7 +91,14 @@ func genC42(t *rapid.T) c42Case {
 		c.Enc = rapid.IntRange(0, 2).Draw(t, "enc")
 	}
 	c.Kind = rapid.SampledFrom([]int{0, 1, 1}).Draw(t, "kind")
-	c.Base, c.ExcludedHop = genBase(t, "base", false)
+	if c.Kind == 0 {
+		// the native denom is SENT: the recorded send-side class (>= 3 segments, hop-like second
+		// segment) is repaired out by construction; two-segment hop-like names stay in
+		c.Base, c.ExcludedHop = genBase(t, "base", repairHopLikeSend)
+	} else {
+		// the denom only ARRIVES (and its voucher is sent on): nothing is excluded
+		c.Base, _ = genBase(t, "base", keepHopLike)
+	}
 	if c.V2 && rapid.IntRange(0, 2).Draw(t, "v2-slashless") > 0 {
 		// ICS-20 over IBC v2 refuses to SEND base denoms with '/', keep most v2 bases slash-free
 		c.Base = strings.ReplaceAll(c.Base, "/", "")
@@ -106,12 +117,6 @@ func genC42(t *rapid.T) c42Case {
 	}
 	if c.Kind == 0 {
 		c.Our = rapid.IntRange(0, 1).Draw(t, "our")
-		// recorded class foreign-source-id-format: a returning packet whose source id is not in
-		// the channel-N / {type}-N format. Repaired out by construction.
-		if !hopLike(c.SrcID) {
-			c.SrcID = rapid.SampledFrom(c42SrcChannels).Draw(t, "src-id-repair")
-			c.ExcludedForeign++
-		}
 	} else {
 		c.Our = rapid.IntRange(0, 4).Draw(t, "our")
 		c.Next = rapid.IntRange(0, 3).Draw(t, "next")
@@ -138,20 +143,33 @@ func genC42(t *rapid.T) c42Case {
 	return c
 }
 
-// the recorded findings, re-demonstrated deterministically
+// the recorded send-side finding, re-demonstrated deterministically: native denoms with >= 3
+// segments and a hop-like second segment, sent out over v1.
 func genC42Known(t *rapid.T) c42Case {
-	switch rapid.IntRange(0, 2).Draw(t, "known-kind") {
-	case 0: // native with a hop-like second segment and >= 3 segments, sent out over v1
-		return c42Case{Kind: 0, Base: rapid.SampledFrom([]string{"ab/client-10/e", "transfer/channel-0/foo", "lp/07-tendermint-0/share/x"}).Draw(t, "base"),
-			SrcPort: "transfer", SrcID: "channel-3", Our: rapid.IntRange(0, 1).Draw(t, "our"), Amount: genAmount(t, "amount"), Part: 4}
-	case 1: // two-segment base with a hop-like second segment arriving as a foreign token
-		return c42Case{Kind: 1, Base: rapid.SampledFrom([]string{"gamm/pool-1", "a/channel-7", "factory/07-tendermint-0"}).Draw(t, "base"),
-			V2:      rapid.Bool().Draw(t, "v2"),
-			SrcPort: "transfer", SrcID: rapid.SampledFrom([]string{"channel-3", "client-5"}).Draw(t, "src"), Our: rapid.IntRange(0, 3).Draw(t, "our"), Amount: genAmount(t, "amount"), Part: 4}
-	default: // native sent to a counterparty whose channel id is not channel-N shaped, and returned
-		return c42Case{Kind: 0, Base: rapid.SampledFrom([]string{"uatom", "gamm/pool/1"}).Draw(t, "base"),
-			SrcPort: "transfer", SrcID: rapid.SampledFrom(c42ForeignChans).Draw(t, "src"), Our: rapid.IntRange(0, 1).Draw(t, "our"), Amount: genAmount(t, "amount"), Part: rapid.IntRange(1, 4).Draw(t, "part")}
+	return c42Case{Kind: 0, Base: rapid.SampledFrom([]string{"ab/client-10/e", "transfer/channel-0/foo", "lp/07-tendermint-0/share/x", "factory/channel-12/sub"}).Draw(t, "base"),
+		SrcPort: "transfer", SrcID: "channel-3", Our: rapid.IntRange(0, 1).Draw(t, "our"), Amount: genAmount(t, "amount"), Part: 4}
+}
+
+// the two receive-side shapes in which ParseDenomFromRecvPacket used to disagree with ICS-20
+// (regression cases: they must pass once the receive parser mirrors OnRecvPacket).
+func genC42RecvParser(t *rapid.T) c42Case {
+	if rapid.Bool().Draw(t, "shape") {
+		// two-segment base with a hop-like second segment arriving as a foreign token (v1, v2, alias)
+		c := c42Case{Kind: 1, Base: rapid.SampledFrom([]string{"gamm/pool-1", "a/channel-7", "factory/07-tendermint-0", "lp/09-localhost"}).Draw(t, "base"),
+			V2: rapid.Bool().Draw(t, "v2"), SrcPort: "transfer", Our: rapid.IntRange(0, 3).Draw(t, "our"), Next: rapid.IntRange(0, 2).Draw(t, "next"), Amount: genAmount(t, "amount"), Part: 4}
+		c.SrcID = rapid.SampledFrom([]string{"channel-3", "client-5"}).Draw(t, "src")
+		if c.V2 {
+			c.Alias = rapid.Bool().Draw(t, "alias")
+			c.Enc = rapid.IntRange(0, 2).Draw(t, "enc")
+		}
+		if c.Our >= 2 {
+			c.Next = 0
+		}
+		return c
 	}
+	// native sent to a counterparty whose channel id is not channel-N / {type}-N shaped, and returned
+	return c42Case{Kind: 0, Base: rapid.SampledFrom([]string{"uatom", "gamm/pool/1", "gamm/pool-1"}).Draw(t, "base"),
+		SrcPort: rapid.SampledFrom([]string{"transfer", "xfer"}).Draw(t, "src-port"), SrcID: rapid.SampledFrom(c42ForeignChans).Draw(t, "src"), Our: rapid.IntRange(0, 1).Draw(t, "our"), Amount: genAmount(t, "amount"), Part: rapid.IntRange(1, 4).Draw(t, "part")}
 }
 
 // ---- the long-lived chain -----------------------------------------------------------
@@ -319,10 +337,10 @@ type c42Run struct {
 
 func (x *c42Run) signature(st c42Step, generic string) string {
 	switch {
-	case hopLikeBase(x.c.Base):
-		return sigHopLike
-	case !st.send && !hopLike(x.c.SrcID) && x.c.Kind == 0:
-		return sigForeignSrc
+	case st.send && x.c.Kind == 0 && sendKnownClass(x.c.Base):
+		return sigHopLike // a native denom of the recorded class being sent
+	case !st.send && (hopLikeBase(x.c.Base) || !hopLike(x.c.SrcID)):
+		return sigRecvParser
 	}
 	return generic
 }
@@ -505,9 +523,7 @@ func runC42(outer *testing.T) func(t rapid.TB, c c42Case, rec *vx.Case) {
 		e := c42World(outer)
 		x := &c42Run{t: t, rec: rec, e: e, c: c}
 		w := e.w
-		rec.Add("excluded_known", int64(c.ExcludedHop+c.ExcludedForeign))
-		rec.Add("excluded_hoplike_base", int64(c.ExcludedHop))
-		rec.Add("excluded_foreign_source_id", int64(c.ExcludedForeign))
+		rec.Add("excluded_known", int64(c.ExcludedHop))
 		for _, s := range strings.Split(c.Base, "/") {
 			selfCheckHopLike(s)
 		}
@@ -601,6 +617,12 @@ func runC42(outer *testing.T) func(t rapid.TB, c c42Case, rec *vx.Case) {
 		if hasIdentifierLikeSegment(c.Base) {
 			rec.Class("id-like-base-segment")
 		}
+		if hopLikeBase(c.Base) {
+			rec.Class("hop-like-second-base-segment")
+		}
+		if !hopLike(c.SrcID) {
+			rec.Class("foreign-format-source-id")
+		}
 		rec.NonTrivialIf(compared > 0 && (unwinding || hasIdentifierLikeSegment(c.Base)))
 	}
 }
@@ -610,23 +632,38 @@ func TestC42(t *testing.T) {
 		ID: "C42",
 		Rule: "base denoms from the C33 generator (1-6 segments, identifier-like shapes), v1 / v2 / v2-over-alias, json|protobuf|abi payloads; kind 0: native sent over an open channel/client then a returning packet from (src port, src id); " +
 			"kind 1: incoming packet with 0-3 extra hops from (src port, src id) on an open or synthetic id, then unwind-send / forward-send / forward-and-return; every step run through the real stacks on a cached context with ICS-20's bank effect as oracle; " +
-			"recorded classes repaired out by construction (hop-like second base segment; returning packet from a non channel-N/{type}-N source id); non-trivial = >=1 compared step and (an unwinding step or an identifier-like base segment); distinct by full case",
+			"only the recorded send-side class (a SENT native denom with >=3 segments and a hop-like second segment) is repaired out by construction; non-trivial = >=1 compared step and (an unwinding step or an identifier-like base segment); distinct by full case",
 		MinNTFrac: 0.3,
 		Gen:       genC42,
 		Run:       runC42(t),
 	})
 }
 
-// TestC42Known re-demonstrates the recorded findings with the same engine.
+// TestC42Known re-demonstrates the recorded send-side finding with the same engine.
 func TestC42Known(t *testing.T) {
 	run := runC42(t)
 	vx.Check(t, vx.Prop[c42Case]{
 		ID:   "C42",
-		Rule: "deterministic re-demonstration: native ab/client-10/e-like denoms sent over v1; gamm/pool-1-like two-segment denoms received; uatom returned by a counterparty whose channel id is not channel-N shaped; every evaluated case counts",
+		Rule: "deterministic re-demonstration of hoplike-base-segment (send side): native ab/client-10/e, transfer/channel-0/foo, lp/07-tendermint-0/share/x, factory/channel-12/sub sent over an open v1 channel; every evaluated case counts",
 		Gen:  genC42Known,
 		Run: func(t rapid.TB, c c42Case, rec *vx.Case) {
 			run(t, c, rec)
 			rec.Class("known-subcase")
+			rec.NonTrivial()
+		},
+	})
+}
+
+// TestC42RecvParser pins the two receive-side shapes (see genC42RecvParser).
+func TestC42RecvParser(t *testing.T) {
+	run := runC42(t)
+	vx.Check(t, vx.Prop[c42Case]{
+		ID:   "C42",
+		Rule: "receive-side regression shapes: two-segment base with hop-like second segment arriving as a foreign token (v1/v2/alias, then unwind or forward), and a native denom returned by a counterparty whose channel id is not channel-N/{type}-N shaped; every evaluated case counts",
+		Gen:  genC42RecvParser,
+		Run: func(t rapid.TB, c c42Case, rec *vx.Case) {
+			run(t, c, rec)
+			rec.Class("recv-parser-subcase")
 			rec.NonTrivial()
 		},
 	})
